@@ -6,7 +6,7 @@ CONSTANTS
   HopSafe = TRUE
   CLNormalised = TRUE
   BigBodies = TRUE
-  Families = {"id", "sig", "hop"}
+  Families = {"id", "sig", "hop", "inj"}
 INVARIANTS RulesHoldG
 ACTION_CONSTRAINT Emit
 CHECK_DEADLOCK FALSE
